@@ -31,6 +31,18 @@ Proof      : coq/Props/C01.v over Model/Commit.v (interleaving machine of the OC
              C01_lock_skeleton_regenerated); refutation witnesses: process-owned locks (POSIX record locks) with two handles
              in one process; a fork while the copied handle holds (fork(2) itself); a handle that KEEPS its descriptor
              across acquisitions (Model/ProcLockKeep.v) forked while idle -- parent and worker both hold.
+             STORAGE FAULTS AT THE COMMIT POINT and what the transaction does about them OUTSIDE the lock (conditional-write storage):
+             Model/TxSettle.v, over Model/FlipFault.v (the pointer write raises, applied by the store or not, anywhere in any
+             interleaving).  Once the exception has left MetadataManager.commit (lock released) the transaction's decision -- re-raise as
+             it stands, or SETTLE the failure by reading the table back -- is a step of its own in the schedule; other committers may
+             have run to completion in between.  For EVERY settle policy that never contradicts the published history, every schedule:
+             a commit reported as a definite failure is not reflected, a commit reported as committed is, no data file of a reflected
+             commit is deleted (C01_settle_outside_lock_sound); the policy of the source is read off the regenerated handler table
+             (gen_tx_on over gen_flip_exn: the arm asserts nothing, keeps the files) and satisfies it, deleting nothing
+             (C01_regenerated_settle_sound); "is the CURRENT version ours?" does not (C01_tip_read_back_refuted: a second writer
+             commits on top of the applied-but-unacknowledged version before the read-back).  A handler arm of any other shape is
+             refused by the translator (fail-closed).  In the machine a request that lands after its client gave up lands BEFORE the
+             sender's unwinding; the harness runs late landings against the real code.
 Tie        : trace validation.  Real Table / MetadataManager / FileLock code runs under harness/lib/sched.py
              (deterministic scheduler, protocol-level yield points, virtual clock) with the committers as threads of one
              process, placed in several SPAWNED OS processes (harness/lib/procsched.py: worker processes stepped over pipes at
@@ -47,9 +59,20 @@ Tie        : trace validation.  Real Table / MetadataManager / FileLock code run
              kernel, event by event), all descriptors closed and the lock free at the end, and the protocol-level lock
              answers must be the kernel's.  A locking primitive outside that vocabulary (lockf, fcntl, unlink of the lock
              file, dup ...) is a correspondence failure.
+             Commit-point faults: S3StorageBackend over the in-memory conditional-write S3 (harness/lib/mems3.py), real lease lock and
+             a lock that excludes nobody; one request-level failure of a committer's pointer PUT (not applied / applied, response lost
+             / in flight, landing later; timeouts, connection errors, 5xx); the scheduler keeps yielding at EVERY storage operation the
+             transaction performs after MetadataManager.commit released the lock (tx_tail_yield_filter).  The projected trace
+             (FlipFault events) followed by one TSettle per committer whose exception left commit() must be accepted by
+             TxSettle.trun_strict under the regenerated policy, agreeing on final pointer, the store's order of applied writes, who
+             failed, what each was told and whose data files were deleted.
 Oracle     : implementation-only serializability oracle: the final table (independent reader) must equal
              the serial replay, in pointer-flip order, of exactly the commits that reported success -- on every schedule
              executed, in-process, across spawned processes and across forked families.
+             On faulted schedules (ptr_fault_oracle), judged from the STORE's own history of the pointer: a commit() that returned is
+             reflected exactly once; one that raised anything but AmbiguousCommitError is not reflected at all; an ambiguous one at
+             most once; every data file referenced by a retained snapshot exists; the final table is the serial replay, in the
+             store's order, of exactly the reflected commits (linear chain, increasing sequence numbers).
 """
 from __future__ import annotations
 
@@ -66,7 +89,8 @@ THEOREMS = ["C01_serializable", "C01_serializable_tables", "C01_acked_exactly_on
             "C01_version_chain_linear", "C01_snapshot_chain",
             "C01_skeleton_regenerated", "C01_conflict_retried",
             "C01_lock_exclusive_any_topology", "C01_lock_refines_excl", "C01_lock_not_dropped_by_others", "C01_fork_inherits_nothing",
-            "C01_lock_skeleton_regenerated"]
+            "C01_lock_skeleton_regenerated",
+            "C01_settle_outside_lock_sound", "C01_regenerated_settle_sound", "C01_tip_read_back_refuted"]
 REQ = ["DS.Gen.GenCommit", "DS.Model.Commit", "DS.Gen.GenFileLock", "DS.Model.ProcLock"]
 MANIFEST_ENTRY = {
     "level_text": "Serializability of the OCC commit protocol proved in Coq (C01_serializable and companions) by an inductive "
@@ -88,7 +112,16 @@ MANIFEST_ENTRY = {
                   "the models' strict runs; the validation kernel, the stamp rule, the action "
                   "skeleton of MetadataManager.commit, the retry / handler tables and the retry budget (translator/gen_commit.py) and "
                   "FileLock's primitive skeleton and lock discipline (translator/gen_filelock.py) are regenerated from the source and the "
-                  "proofs re-run against them; an implementation-only serializability oracle judges every explored schedule",
+                  "proofs re-run against them; an implementation-only serializability oracle judges every explored schedule; "
+                  "storage faults at the commit point on conditional-write S3 (pointer PUT not applied / applied with the response lost / "
+                  "in flight and landing later) are combined with schedules in which another writer commits at every step of the faulted "
+                  "committer, including the steps Transaction.commit performs outside the lock after MetadataManager.commit returned or "
+                  "raised: Model/TxSettle.v proves for every schedule and every settle policy that never contradicts the published history "
+                  "that a commit reported failed is not reflected, one reported committed is, and no file of a reflected commit is deleted "
+                  "(C01_settle_outside_lock_sound), that the policy read off the regenerated handler table is such a policy "
+                  "(C01_regenerated_settle_sound) and that a tip-equality read-back is not (C01_tip_read_back_refuted); faulted runs of the "
+                  "real code are trace-validated against that machine and judged by an oracle over the store's own pointer history "
+                  "(acknowledged / failed / ambiguous accounting, referenced files exist, serial replay)",
     "level_note": "trusted: Coq kernel; translator/gen_commit.py, gen_filelock.py; projection of the storage log and of the lock-file "
                   "primitives onto model events (harness/lib/protocol.py, props/c01.py project_locks); the kernel's flock semantics "
                   "as written in Model/ProcLock.v (grants / drops / shared descriptions after fork), compared with the real kernel's "
@@ -99,10 +132,15 @@ MANIFEST_ENTRY = {
                   "without it: C01_fork_while_holding_not_exclusive -- fork(2) itself); a refused conditional pointer write was not "
                   "applied (C01_conflict_not_reflected_partial, hypothesis no_late; refuted without it: C01_conflict_not_reflected_refuted "
                   "-- an HTTP client re-sending an If-Match PUT whose first copy landed; not produced by the harness); descriptors are "
-                  "not dup()ed (a dup on the lock file is a correspondence failure)",
+                  "not dup()ed (a dup on the lock file is a correspondence failure); commit-point faults: one fault per run, injected at the "
+                  "boto surface (harness/lib/protocol.py s3_fault) over harness/lib/mems3.py; in Model/TxSettle.v a request landing after its "
+                  "client gave up lands before the sender's unwinding (late landings are run against the real code only); the SDK-level "
+                  "re-send of an applied request (412 for an applied write) stays the explicit assumption above / C08's subject",
     "technique": "Coq invariant proofs over two interleaving machines (commit protocol; lock layer under arbitrary process topologies with "
                  "fork / descriptor inheritance), composition with the metadata model of C15, "
-                 "translator-regenerated kernels and skeletons + trace validation of real executions, in-process, multi-process and across fork()",
+                 "translator-regenerated kernels and skeletons + trace validation of real executions, in-process, multi-process and across fork(); "
+                 "request-level fault injection at the commit point x directed / random schedules over a fake conditional-write S3, settle "
+                 "machine over the failing-write machine",
     "design_ref": "DESIGN.md section 5 C01",
 }
 
@@ -407,7 +445,27 @@ def _fix_case(case: Dict[str, Any]) -> Dict[str, Any]:
             op["cutoff"] = 1_700_000_000_000 + 15
         ops.append(op)
     c["ops"] = ops
+    if case.get("tail_yields"):
+        c["yield_filter"] = tx_tail_yield_filter
     return c
+
+
+def tx_tail_yield_filter(op: str, path: str, phase: tuple) -> bool:
+    """The protocol yield points, and -- case["tail_yields"] -- EVERY storage operation a committer performs inside
+    Transaction.commit / delete_snapshot AFTER its MetadataManager.commit has released the metadata lock (the return or raise of
+    MetadataManager.commit is not the end of the commit: handlers, read-backs, rollbacks and cleanups follow, outside the lock;
+    another writer may run to completion between any two of those steps)."""
+    base = P.protocol_yield_filter(op, path, phase)
+    sc = P.S_current()
+    me = sc.me() if sc is not None else None
+    if me is None:
+        return base
+    st = sc.__dict__.setdefault("_c01_tail", {})
+    if op == "LockTry":
+        st[me.name] = False
+    elif op == "LockRel":
+        st[me.name] = True
+    return base or (st.get(me.name, False) and ("Transaction.commit" in phase or "SnapshotManager.delete_snapshot" in phase))
 
 
 def kind_of(op: Dict[str, Any], init_cur_model: int = 1) -> Tuple[str, Any]:
@@ -541,6 +599,233 @@ def _initial_rows_by_file(res: P.CaseResult) -> Dict[str, List[int]]:
     return out
 
 
+
+# ---------------------------------------------------------------------------------------------------- commit-point faults
+# Storage faults of every outcome kind at the pointer write (conditional-write S3), combined with schedules in which another
+# writer runs to completion between any two steps of the faulted committer -- including the steps of Transaction.commit that
+# FOLLOW the return / raise of MetadataManager.commit (case["tail_yields"]).
+PTR_FAULT_MODES = ["before",      # the request is not applied; the client gets an error that is not the store's refusal
+                   "after",       # the request is applied; the response is lost
+                   "inflight"]    # the client gives up; the request reaches the store later, at a scheduling point of its own
+PTR_FAULT_EXCS = ["timeout", "connect", "500", "connclosed", "503", "oserror", "reqtimeout"]
+TREQ = ["DS.Gen.GenCommit", "DS.Model.Commit", "DS.Model.FlipFault", "DS.Model.TxSettle"]
+
+
+def applied_pointer_writes(res: P.CaseResult) -> List[Optional[str]]:
+    """Whose version the STORE made current, in the store's order, whatever the clients were told: one entry per applied PUT of
+    the pointer = the committer that wrote the metadata file the new pointer content names (None: nobody of this run)."""
+    writers: Dict[str, str] = {}
+    for e in res.log:
+        if e["op"] == "write_file" and P.path_class(e["path"]) == "meta" and e["actor"].startswith("A"):
+            writers[e["path"].rsplit("/", 1)[-1]] = e["actor"]
+    out = []
+    for h in (res.store.history if res.store is not None else []):
+        if h["key"].endswith(P.HINT):
+            out.append(writers.get(h["body"].decode("utf-8", "replace").strip()))
+    return out
+
+
+def told(outcome: Tuple[str, str]) -> str:
+    """What the caller of commit() was told: 'success' | 'noop' | 'ambiguous' (AmbiguousCommitError: outcome unknown, nothing was
+    deleted) | 'failed' (any other exception)."""
+    st, d = outcome
+    if st == "ok":
+        return "noop" if d == "noop" else "success"
+    return "ambiguous" if d.startswith("AmbiguousCommitError") else "failed"
+
+
+def ptr_fault_oracle(case: Dict[str, Any], res: P.CaseResult) -> Optional[str]:
+    """Implementation-only judgement of C01 on a run with a storage fault at the commit point, from the store's own history of
+    the pointer and the final table (independent reader):
+      * a commit() that returned is reflected exactly once; one that raised anything but the ambiguous error is not reflected at
+        all; one that raised the ambiguous error is reflected at most once (acknowledged + ambiguous accounting);
+      * every data file referenced by a retained snapshot exists;
+      * the final table is the serial replay, in the store's order, of exactly the reflected commits; linear chain, strictly
+        increasing sequence numbers."""
+    if res.deadlock:
+        return f"deadlock: {res.deadlock}"
+    owners = applied_pointer_writes(res)
+    if any(o is None for o in owners):
+        return f"the pointer was set to a file no committer of this run wrote (store's pointer history: {owners})"
+    for a, oc in sorted(res.outcomes.items()):
+        if not a.startswith("A"):
+            continue
+        n, t = owners.count(a), told(oc)
+        if t == "success" and n != 1:
+            return (f"{a}'s commit was acknowledged but is reflected {n} time(s) in the version chain (pointer writes the store applied: {owners})")
+        if t in ("failed", "noop") and n != 0:
+            return (f"{a}'s commit {'raised ' + oc[1] if t == 'failed' else 'reported nothing to do'} -- a definite failure -- yet the store "
+                    f"applied its pointer write: the commit is reflected in the version chain (applied: {owners}; outcomes "
+                    f"{ {k: told(v) for k, v in sorted(res.outcomes.items()) if k.startswith('A')} })")
+        if t == "ambiguous" and n > 1:
+            return f"{a}'s commit (reported ambiguous) is reflected {n} times (applied: {owners})"
+    if "error" in res.final:
+        return f"final table unreadable: {res.final['error']}"
+    if res.final.get("missing"):
+        return (f"retained snapshots reference data files that no longer exist: {res.final['missing'][:3]} (applied pointer writes {owners}; "
+                f"outcomes { {k: told(v) for k, v in sorted(res.outcomes.items()) if k.startswith('A')} })")
+    return serial_oracle(case, res, flips=[o for o in owners if o is not None])
+
+
+def ptr_fault_case(ops: Any, lock: str, victim: str, mode: str, exc: str, nth: int = 1, clock: str = "tick") -> Dict[str, Any]:
+    return {"ops": ops, "clock": clock, "topology": "separate", "backend": "s3cas", "lock": lock, "tail_yields": True,
+            "s3_fault": {"op": "put_object", "cls": "hint", "actor": victim, "nth": nth, "when": mode, "exc": exc}}
+
+
+def ptr_fault_runs(ctx, quick: bool) -> List[Tuple[Dict[str, Any], Any, P.CaseResult]]:
+    """One request-level fault (not applied / applied, response lost / in flight, landing later; every error kind) at the pointer
+    write of either committer, under the real lease lock and under a lock that excludes nobody (conditional writes alone), with
+    the OTHER committer's whole commit placed at every step of the faulted one -- before the fault, between the fault and the
+    lock release, and between any two of the steps Transaction.commit performs after MetadataManager.commit has returned or
+    raised; plus random schedules of three / four committers."""
+    runs: List[Tuple[Dict[str, Any], Any, P.CaseResult]] = []
+    k = 0
+    opsets = OPSETS[:3] if quick else OPSETS
+    for oi, ops in enumerate(opsets):
+        for victim, other in (("A0", "A1"), ("A1", "A0")):
+            for mode in PTR_FAULT_MODES:
+                for lock in (("real", "grant_all") if (oi == 0 or not quick) else ("real",)):
+                    for nth in ((1,) if quick else (1, 2)):
+                        k += 1
+                        case = ptr_fault_case(ops, lock, victim, mode, PTR_FAULT_EXCS[k % len(PTR_FAULT_EXCS)], nth)
+                        lead = [] if victim == "A0" else [(0, victim)]
+                        base = _run(ctx, case, dev_chooser(dict(lead)), tag="c01s")
+                        runs.append((case, list(lead), base))
+                        seen = {tuple(base.schedule)}
+                        last = max([i for i, a in enumerate(base.schedule) if a == victim] + [0])
+                        for i in range(1, last + 2):
+                            dev = lead + [(i, other)]
+                            res = _run(ctx, case, dev_chooser(dict(dev)), tag="c01s")
+                            if tuple(res.schedule) in seen:
+                                continue
+                            seen.add(tuple(res.schedule))
+                            runs.append((case, dev, res))
+                            if mode == "inflight":
+                                # ... and the landing of the request right after the other committer's commit began
+                                js = [j for j in range(i + 1, len(res.schedule)) if "L" in res.enabled_at[j] and res.schedule[j] != "L"]
+                                for j in js[:1]:
+                                    dev2 = dev + [(j, "L")]
+                                    r2 = _run(ctx, case, dev_chooser(dict(dev2)), tag="c01s")
+                                    if tuple(r2.schedule) not in seen:
+                                        seen.add(tuple(r2.schedule))
+                                        runs.append((case, dev2, r2))
+    for i in range(12 if quick else 300):
+        ops = OPSETS3[i % len(OPSETS3)]
+        case = ptr_fault_case(ops, ctx.rng.choice(["real", "grant_all"]), f"A{ctx.rng.randrange(len(ops))}", ctx.rng.choice(PTR_FAULT_MODES),
+                              ctx.rng.choice(PTR_FAULT_EXCS), nth=ctx.rng.choice([1, 1, 2]), clock=ctx.rng.choice(["tick", "coarse", "frozen"]))
+        seed = ctx.rng.randrange(1 << 30)
+        res = _run(ctx, case, lambda sc, seed=seed: S.random_chooser(_r.Random(seed), 0.35), tag="c01s")
+        runs.append((case, [("random", seed)], res))
+    return runs
+
+
+def _tev(ai: int, k: str) -> str:
+    if k.startswith("TSettle"):
+        return f"TSettle {ai}%nat"
+    if k.startswith("XFlipErr"):
+        return f"TX (XFlipErr {ai}%nat {k.split()[1]})"
+    if k in ("XUnwind", "XFlipResent", "XReadBack"):
+        return f"TX ({k} {ai}%nat)"
+    return f"TX (XE {{| e_actor := {ai}%nat; e_kind := {_nat_args(k)} |}})"
+
+
+def tmodel_expr(case: Dict[str, Any], res: P.CaseResult, events: List[Tuple[int, str]]) -> str:
+    n = len(case["ops"])
+    kinds = " ".join(f"| {i}%nat => {kind_of(op)[0]}" for i, op in enumerate(case["ops"]))
+    maxrs = " ".join(f"| {i}%nat => ({kind_of(op)[1]})%nat" for i, op in enumerate(case["ops"]))
+    lu0 = res.initial["meta"]["last_updated_ms"]
+    cfgs = "{| cas := true; lockkind := %s |}" % ("GrantAll" if case.get("lock") == "grant_all" else "Lease")
+    evs = "[" + "; ".join(_tev(ai, k) for ai, k in events) + "]"
+    return (f"match trun_strict (gen_policy true false false) {cfgs} false (tinit (init_world {{| m_ops := []; m_cur := 1; m_lu := {lu0} |}} "
+            f"(fun a => match a with {kinds} | _ => KKeep end) (fun a => match a with {maxrs} | _ => 1%nat end))) {evs} 0%nat with "
+            f"| inl T => (1, tsummary T {n}%nat) | inr i => (0, (i, [], [], [], [], [], [])) end")
+
+
+def files_deleted_by_rollback(res: P.CaseResult) -> List[int]:
+    """Committers whose transaction deleted data files it had written (Transaction._rollback with delete_files)."""
+    out: List[int] = []
+    for e in res.log:
+        if e["op"] == "delete_file" and P.path_class(e["path"]) == "data" and e["actor"].startswith("A") and int(e["actor"][1:]) not in out:
+            out.append(int(e["actor"][1:]))
+    return out
+
+
+def check_ptr_fault_runs(ctx, name: str, runs: List[Tuple[Dict[str, Any], Any, P.CaseResult]]) -> None:
+    """Oracle on every faulted run; correspondence with Model/TxSettle.v under the policy read off the regenerated handler table:
+    the projected trace (Model/FlipFault.v events) followed by one TSettle per committer whose exception left commit() must be
+    accepted event by event, agreeing on final pointer, the store's order of applied writes, outcomes, who failed at the commit
+    point, what each of them was told, and whose data files were deleted."""
+    exprs, kept, bad = [], [], []
+    seen_keys = set()
+    fired = {m: 0 for m in PTR_FAULT_MODES}
+    told_stats: Dict[str, int] = {}
+    for case, dev, res in runs:
+        sf = case["s3_fault"]
+        ctx.count(1, (name, repr(case["ops"]), case.get("lock"), repr(sorted(sf.items())), tuple(res.schedule)))
+        for e in res.log:
+            if e.get("s3_fault") in fired:
+                fired[e["s3_fault"]] += 1
+                t = told(res.outcomes[e["actor"]])
+                told_stats[t] = told_stats.get(t, 0) + 1
+        why = ptr_fault_oracle(case, res)
+        if why:
+            key = (f"commit-point-fault:{sf['when']}:{case.get('lock')}:"
+                   + "+".join(o["kind"] + ("-" + o["which"] if "which" in o else "") for o in case["ops"]))
+            if key not in seen_keys:
+                seen_keys.add(key)
+                ctx.violation(key, why, {"case": _case_json(case), "deviations": list(dev), "schedule": res.schedule, "outcomes": res.outcomes})
+        try:
+            events, vids, _notes = P.project(res, len(case["ops"]), cas=True, lease=(case.get("lock", "real") == "real"), faults=True)
+        except P.Nonconforming as e:
+            bad.append({"case": _case_json(case), "deviations": list(dev), "schedule": res.schedule, "nonconforming": str(e)})
+            continue
+        settled = [ai for ai, k in events if k == "XUnwind"]
+        events = events + [(ai, "TSettle") for ai in settled]
+        exprs.append(tmodel_expr(case, res, events))
+        kept.append((case, dev, res, events, vids, settled))
+    vals = coqbuild.coq_eval(TREQ, exprs, chunk=60) if exprs else []
+    for (case, dev, res, events, vids, settled), val in zip(kept, vals):
+        ok, (ptr_or_idx, _ops_final, hist, codes, failed, reps, deleted) = val
+        if ok != 1:
+            i = ptr_or_idx
+            bad.append({"case": _case_json(case), "deviations": list(dev), "schedule": res.schedule, "rejected_event_index": i,
+                        "event": events[i] if i < len(events) else None, "events": events[:i + 1][-8:]})
+            continue
+        owners = [int(o[1:]) for o in applied_pointer_writes(res) if o]
+        final_vid = vids.get(res.final.get("pointer"), -1)
+        exp_reps = []
+        for i in range(len(case["ops"])):
+            t = told(res.outcomes[f"A{i}"])
+            exp_reps.append({"success": 1, "failed": 2, "ambiguous": 3, "noop": 2}[t] if i in settled else 0)
+        exp_deleted = sorted(a for a in files_deleted_by_rollback(res) if a in settled)
+        if (ptr_or_idx != final_vid or [a for (_v, a) in hist] != owners or list(reps) != exp_reps or sorted(deleted) != exp_deleted
+                or sorted(failed) != sorted(settled)):
+            bad.append({"case": _case_json(case), "deviations": list(dev), "schedule": res.schedule,
+                        "model": {"ptr": ptr_or_idx, "hist": hist, "codes": codes, "failed": failed, "told": reps, "files_deleted": deleted},
+                        "impl": {"ptr": final_vid, "applied": owners, "failed": settled, "told": exp_reps, "files_deleted": exp_deleted,
+                                 "outcomes": res.outcomes}})
+    ctx.stats["commit_point_faults_fired"] = fired
+    ctx.stats["commit_point_fault_schedules"] = len(runs)
+    ctx.stats["faulted_committer_was_told"] = told_stats
+    ctx.stats["other_writer_committed_after_fault"] = sum(
+        1 for _c, _d, r in runs if _other_committed_after_fault(r))
+    ctx.correspondence(name, len(runs), bad)
+
+
+def _other_committed_after_fault(res: P.CaseResult) -> bool:
+    """Did another committer's pointer write land after the faulted pointer write and before the faulted committer finished?"""
+    victim, seen = None, False
+    last_of: Dict[str, int] = {}
+    for i, e in enumerate(res.log):
+        last_of[e["actor"]] = i
+    for i, e in enumerate(res.log):
+        if e.get("s3_fault"):
+            victim = e["actor"]
+        elif victim and e["actor"] != victim and e["op"] in ("write_file", "write_file_cas") and P.path_class(e["path"]) == "hint" \
+                and e["result"] == "ok" and i < last_of.get(victim, -1):
+            seen = True
+    return seen
+
 # ---------------------------------------------------------------------------------------------------- driver
 def check_runs(ctx, name: str, runs: List[Tuple[Dict[str, Any], Any, P.CaseResult]]) -> None:
     exprs, kept = [], []
@@ -636,12 +921,16 @@ def run(ctx) -> None:
                 "1-2 workers; parent + worker, two workers, two threads of one worker + another worker; one inherited handle shared by "
                 "the family or one handle per committer) with contention scripts and bounded-preemption enumeration, "
                 "bounded-preemption enumeration and random schedules over the spawned placements; "
-                "distinct = distinct executed schedule per case")
+                "conditional-write S3 (real lease lock / no exclusion) with one request-level fault at either committer's pointer PUT "
+                "{not applied, applied + response lost, in flight + landing later} x error kind x the other committer's whole commit at every "
+                "step of the faulted committer (every storage operation after the lock release is a scheduling point) + random schedules of "
+                "3-4 committers; distinct = distinct executed schedule per case")
     ctx.trusted_base += [
         "harness/lib/sched.py + protocol.py: deterministic scheduler, projection of the storage log onto Model/Commit.v events",
         "harness/lib/procsched.py: worker processes stepped over pipes (same yield points, merged log); process families created by os.fork() "
         "from a clean fork-server process, requests relayed down the family's pipes",
         "kernel flock semantics as modelled in Model/ProcLock.v (compared with the real kernel's answers on every run); write-once metadata files",
+        "harness/lib/mems3.py (strongly consistent in-memory S3 with If-Match / If-None-Match) + the request-level fault injector of protocol.py",
     ]
     ctx.assumptions += ["pointer intact (C10 covers damaged pointers)", "no garbage collection concurrent with commits (C06)",
                         "a refused conditional pointer write (412 Precondition Failed) was NOT applied: the object store answers each request once "
@@ -795,6 +1084,16 @@ def run(ctx) -> None:
     except RuntimeError as e:
         ctx.proof_problems.append("model evaluation failed: " + str(e)[:800])
     _mark("oracles + model evaluation")
+    # 6. STORAGE FAULTS AT THE COMMIT POINT (conditional-write S3) x schedules: the pointer write of one committer fails -- not
+    #    applied / applied, response lost / in flight and landing later -- and another writer runs to completion at every step of
+    #    the faulted committer, including the steps Transaction.commit performs after MetadataManager.commit returned or raised
+    fruns = ptr_fault_runs(ctx, quick)
+    _mark("commit-point fault schedules")
+    try:
+        check_ptr_fault_runs(ctx, "commit-point-fault-trace", fruns)
+    except RuntimeError as e:
+        ctx.proof_problems.append("model evaluation failed (commit-point faults): " + str(e)[:800])
+    _mark("commit-point fault oracles + model evaluation")
 
 
 def replay(ctx, payload) -> int:
@@ -812,6 +1111,6 @@ def replay(ctx, payload) -> int:
             res = _run(ctx, case, dev_chooser({int(i): a for i, a in dev}), tag="replay")
     finally:
         _close_pool()
-    why = serial_oracle(case, res)
+    why = ptr_fault_oracle(case, res) if case.get("s3_fault") else serial_oracle(case, res)
     print("replay:", "STILL FAILS: " + why if why else "passes now")
     return 1 if why else 0
